@@ -299,10 +299,104 @@ def rule_slotpred(ctx):
             ctx.bad(rid, "%s|table-differs" % path, "%s is true for %s, required %s" % (path, sorted(got), sorted(true_set)), fn=f)
 
 
+BLEND = "jxl_render::blend::blend"
+
+
+def rule_blendsrc(ctx):
+    """inside the per-channel loop of blend(), the reference slot and blend parameters come from the channel's own blending info"""
+    from ..facts import callee, op_local, op_place
+    from ..mirutil import Defs, strip_generics
+    rid = "R-BLENDSRC"
+    ctx.rule(rid, "blend(): in the loop over the per-channel blending infos (colour channels share the frame's info, every extra channel "
+                  "has its own), each use of a blending info - the lookup of the source slot and alpha channel, and the construction of "
+                  "the blend parameters - is data-dependent on the loop's current item; in particular the index into the reference "
+                  "grids inside the loop derives from the item, not from the frame-level info hoisted out of the loop")
+    f = ctx.prog.fn(BLEND)
+    if f is None:
+        ctx.anchor_missing(rid, BLEND)
+        return
+    ctx.seen(f)
+    defs = Defs(f)
+    # the loop: `next()` on an iterator whose item type mentions BlendingInfo and that was built with enumerate/chain over ec_blending_info
+    def next_over_infos(t):
+        c = callee(t)
+        if not c or not c["fn"].endswith("::next"):
+            return False
+        sig = " ".join([c["fn"]] + list(c.get("args", [])) + [c.get("res", "")])
+        return "BlendingInfo" in sig and ("RepeatN" in sig or "repeat_n" in sig)
+    nexts = [(b, t) for b, t in f.calls() if next_over_infos(t)]
+    if not nexts:
+        ctx.anchor_missing(rid, "the per-channel loop over blending infos in blend()")
+        return
+    nb, nt = nexts[-1]
+    item = nt[3][0]
+    loop_blocks = {x for x in f.reachable(nt[4]) if nb in f.reachable(x)}
+
+    def from_item(l, depth=0):
+        seen = set()
+        while l is not None and l not in seen and depth < 30:
+            depth += 1
+            seen.add(l)
+            if l == item:
+                return True
+            d = defs.single(l)
+            if not d:
+                # several definitions: any of them from the item?
+                ds = [x for x in defs.of(l) if not f.is_cleanup(x[0])]
+                return any(x[2] == "assign" and x[3][2][0] in ("use", "ref") and
+                           from_item((op_place(x[3][2][1]) if x[3][2][0] == "use" else x[3][2][2])[0], depth + 1)
+                           for x in ds if (op_place(x[3][2][1]) if x[3][2][0] == "use" else x[3][2][2]) is not None)
+            if d[2] == "assign":
+                rv = d[3][2]
+                pl = rv[2] if rv[0] == "ref" else (op_place(rv[1]) if rv[0] == "use" else (op_place(rv[2]) if rv[0] == "cast" else None))
+                l = pl[0] if pl is not None else None
+            elif d[2] == "call":
+                c = callee(d[3])
+                # the result of a lookup is "from the item" if its first argument is
+                l = op_local(d[3][2][0]) if d[3][2] else None
+            else:
+                return False
+        return False
+
+    n = 0
+    bad = []
+    for b, t in f.calls():
+        c = callee(t)
+        if not c or b not in loop_blocks and not any(b in f.reachable(x) for x in ()):
+            pass
+        if not c:
+            continue
+        nm = strip_generics(c["fn"])
+        if nm.endswith("source_and_alpha_from_blending_info") or nm.endswith("BlendParams::from_blending_info"):
+            n += 1
+            if not (t[2] and from_item(op_local(t[2][0]))):
+                bad.append((t, "%s is given a blending info that is not the loop's current item" % nm.split("::")[-1]))
+    # indexing of the reference grids inside the loop
+    for b in sorted(loop_blocks):
+        for st in f.stmts(b):
+            if st[0] == "=" and st[2][0] == "ref":
+                pl = st[2][2]
+                if f.local_name(pl[0]) == "reference_grids" or "Reference<" in f.local_ty(pl[0]) and f.local_ty(pl[0]).startswith("["):
+                    idx = [e for e in pl[1:] if isinstance(e, list) and e[0] == "[]"]
+                    if idx:
+                        n += 1
+                        if not from_item(idx[0][1]):
+                            bad.append((None, "the reference slot used inside the per-channel loop does not depend on the channel's own blending info"))
+    ctx.counts[rid + ".uses"] = n
+    if bad:
+        t, msg = bad[0]
+        ctx.bad(rid, "blending-info-not-per-channel", "%s: an extra channel is blended over the slot (or with the parameters) the colour channels "
+                "name, not its own" % msg, fn=f, pos=(t[-2] if t else f.term_pos(nb)))
+    else:
+        ctx.ok(rid, "blending-info-per-channel", "%d uses inside the loop all derive from the current item" % n, nontrivial=True, fn=f)
+    ctx.floor(rid + ".uses", 2)
+
+
 def main(pid, tier, repo=None):
     ctx = Ctx(pid, tier, configs=("workspace",), repo=repo)
     rule_slot(ctx)
     rule_slotpred(ctx)
+    rule_blendsrc(ctx)
     from . import enummap
     enummap.run(ctx, pid)
     ctx.not_decided("the blend arithmetic, clamping, alpha handling, crop intersection, resets_canvas / save_before_ct, patches (value-level)")
